@@ -331,19 +331,19 @@ def checked_subst_history(ctx, h, steps, kinds):
             elif kind == 'cofactor':
                 d = rng.choice(menu_c) if rng.random() < 0.7 else (
                     {v: rng.randint(0, 1) for v in names if rng.random() < 0.4} or {names[0]: 1})
-                ans = h.s.op(0, 'let_b', u, ','.join(f'n:{k}={v}' for k, v in d.items()))
+                ans = h.s.op(0, rng.choice(['let_b', 'cofactor']), u, ','.join(f'n:{k}={v}' for k, v in d.items()))
                 want = tu
                 for k, v in d.items():
                     want = sp.cof(want, k, v)
             elif kind == 'rename':
                 d = rng.choice(menu_r) if rng.random() < 0.7 else (
                     {v: rng.choice(names) for v in names if rng.random() < 0.5} or {names[0]: names[-1]})
-                ans = h.s.op(0, 'let_n', u, ','.join(f'{k}={v}' for k, v in d.items()))
+                ans = h.s.op(0, rng.choice(['let_n', 'rename']), u, ','.join(f'{k}={v}' for k, v in d.items()))
                 want = sp.rename(tu, d)
             else:
                 ks = rng.sample(names, rng.randint(1, min(2, len(names))))
                 gs = {k: h.pick() for k in ks}
-                ans = h.s.op(0, 'let_r', u, ','.join(f'{k}={g}' for k, g in gs.items()))
+                ans = h.s.op(0, rng.choice(['let_r', 'compose']), u, ','.join(f'{k}={g}' for k, g in gs.items()))
                 want = sp.compose(tu, {k: tt.of(g) for k, g in gs.items()})
             res = h.add(ans)
             ctx.evaluations += 1
